@@ -16,9 +16,9 @@
 using namespace vf;
 typedef __float128 q128;
 
-enum { V0, V1, V2, B0, B1, D0, D1, PP, MM, NSLOT };
-static const char* SN[NSLOT] = {"V0", "V1", "V2", "B0", "B1", "D0", "D1", "P", "M"};
-static const int NL[NSLOT] = {2, 2, 2, 2, 2, 2, 2, 1, 4};  // number of polynomials per slot
+enum { V0, V1, V2, B0, B1, D0, D1, PP, MM, M4, NSLOT };
+static const char* SN[NSLOT] = {"V0", "V1", "V2", "B0", "B1", "D0", "D1", "P", "M", "M4"};
+static const int NL[NSLOT] = {2, 2, 2, 3, 3, 3, 3, 1, 4, 8};  // number of polynomials per slot (big / DFT vectors have 3 limbs, int64 vectors 2)
 
 struct MSlot { bool def = false; std::vector<Poly> v; std::string expr; };
 struct MState { uint64_t N; MSlot s[NSLOT]; };
@@ -59,9 +59,9 @@ struct Real {
   Real(MODULE* m, MODULE_TYPE tt, uint64_t n) : N(n), t(tt), mod(m) {
     sl[0] = N; sl[1] = N; sl[2] = N + 3;
     for (int i = 0; i < 3; ++i) { b[i].init(limbvec_elems(N, 2, sl[i]) * 8, 8 * i); prefill(b[i].p, b[i].bytes, 1); }
-    for (int i = B0; i <= B1; ++i) { b[i].init(big_bytes(t, N, 2), 8); prefill(b[i].p, b[i].bytes, 1); }
-    for (int i = D0; i <= D1; ++i) { b[i].init(dft_bytes(t, N, 2), 16); prefill(b[i].p, b[i].bytes, 1); }
-    if (t == FFT64) { b[PP].init(bytes_of_svp_ppol(mod), 24); b[MM].init(bytes_of_vmp_pmat(mod, 2, 2), 0); prefill(b[PP].p, b[PP].bytes, 1); prefill(b[MM].p, b[MM].bytes, 1); }
+    for (int i = B0; i <= B1; ++i) { b[i].init(big_bytes(t, N, 3), 8); prefill(b[i].p, b[i].bytes, 1); }
+    for (int i = D0; i <= D1; ++i) { b[i].init(dft_bytes(t, N, 3), 16); prefill(b[i].p, b[i].bytes, 1); }
+    if (t == FFT64) { b[PP].init(bytes_of_svp_ppol(mod), 24); b[MM].init(bytes_of_vmp_pmat(mod, 2, 2), 0); b[M4].init(bytes_of_vmp_pmat(mod, 2, 4), 8); prefill(b[PP].p, b[PP].bytes, 1); prefill(b[MM].p, b[MM].bytes, 1); prefill(b[M4].p, b[M4].bytes, 1); }
     size_t tb = N * 8 * 4 + 4096;
     tmp.init(tb, 0);
   }
@@ -79,7 +79,10 @@ struct Op {
   std::function<void(Real&)> real;
 };
 
+static std::vector<Poly> ext3(const std::vector<Poly>& a) { std::vector<Poly> r = a; while (r.size() < 3) r.push_back(Poly(a[0].size(), 0)); return r; }
+static std::vector<Poly> vadd3(const std::vector<Poly>& a, const std::vector<Poly>& b, int sign);
 static std::vector<Poly> vadd(const std::vector<Poly>& a, const std::vector<Poly>& b, int sign) { std::vector<Poly> r(a.size()); for (size_t l = 0; l < a.size(); ++l) r[l] = sign > 0 ? poly_add(a[l], b[l]) : poly_sub(a[l], b[l]); return r; }
+static std::vector<Poly> vadd3(const std::vector<Poly>& a, const std::vector<Poly>& b, int sign) { return vadd(ext3(a), ext3(b), sign); }
 static std::vector<Poly> vmap(const std::vector<Poly>& a, const std::function<Poly(const Poly&)>& f) { std::vector<Poly> r; for (auto& p : a) r.push_back(f(p)); return r; }
 static std::vector<Poly> vnorm(const std::vector<Poly>& a, unsigned k) {
   uint64_t N = a[0].size(); std::vector<Poly> r(a.size(), Poly(N));
@@ -111,8 +114,8 @@ static std::vector<Op> make_ops() {
   // ---- to DFT space
   for (int w = 0; w < 2; ++w) {
     int src = w ? V1 : V0, dst = w ? D1 : D0;
-    ops.push_back({sfmt("%s = vec_znx_dft(%s)", SN[dst], SN[src]), false, [=](const MState& m, const Budget& b, MState& n) { if (!defd(m, {src}) || !b.dft_ok(m.s[src].v)) return false; n = m; setv(n, dst, m.s[src].v, "dft"); return true; },
-                   [=](Real& R) { vec_znx_dft(R.mod, (VEC_ZNX_DFT*)R.b[dst].p, 2, R.v(src), 2, R.sl[src]); }});
+    ops.push_back({sfmt("%s = vec_znx_dft(%s)", SN[dst], SN[src]), false, [=](const MState& m, const Budget& b, MState& n) { if (!defd(m, {src}) || !b.dft_ok(m.s[src].v)) return false; n = m; setv(n, dst, ext3(m.s[src].v), "dft"); return true; },
+                   [=](Real& R) { vec_znx_dft(R.mod, (VEC_ZNX_DFT*)R.b[dst].p, 3, R.v(src), 2, R.sl[src]); }});
   }
   ops.push_back({"P = svp_prepare(V2 limb 0)", true, [=](const MState& m, const Budget& b, MState& n) { if (!defd(m, {V2}) || !b.dft_ok({m.s[V2].v[0]})) return false; n = m; setv(n, PP, {m.s[V2].v[0]}, "svp_prepare"); return true; },
                  [](Real& R) { svp_prepare(R.mod, (SVP_PPOL*)R.b[PP].p, R.v(V2)); }});
@@ -123,45 +126,58 @@ static std::vector<Op> make_ops() {
       std::vector<Poly> r;
       for (auto& p : m.s[src].v) { if (!b.prod_ok({&p}, {&m.s[PP].v[0]})) return false; r.push_back(negacyclic_mul(p, m.s[PP].v[0])); }
       if (!b.dft_ok(r)) return false;
-      n = m; setv(n, dst, r, "svp_apply(" + m.s[PP].expr + ")"); return true; },
-      [=](Real& R) { svp_apply_dft(R.mod, (VEC_ZNX_DFT*)R.b[dst].p, 2, (SVP_PPOL*)R.b[PP].p, R.v(src), 2, R.sl[src]); }});
+      n = m; setv(n, dst, ext3(r), "svp_apply(" + m.s[PP].expr + ")"); return true; },
+      [=](Real& R) { svp_apply_dft(R.mod, (VEC_ZNX_DFT*)R.b[dst].p, 3, (SVP_PPOL*)R.b[PP].p, R.v(src), 2, R.sl[src]); }});
   }
   ops.push_back({"M = vmp_prepare_contiguous([V0; V1])", true, [=](const MState& m, const Budget& b, MState& n) { if (!defd(m, {V0, V1}) || !b.dft_ok(m.s[V0].v) || !b.dft_ok(m.s[V1].v)) return false; n = m; setv(n, MM, {m.s[V0].v[0], m.s[V0].v[1], m.s[V1].v[0], m.s[V1].v[1]}, "vmp_prepare"); return true; },
                  [](Real& R) { std::vector<int64_t> mat(4 * R.N); for (int r = 0; r < 2; ++r) for (int c = 0; c < 2; ++c) memcpy(&mat[(r * 2 + c) * R.N], R.v(r ? V1 : V0) + c * R.sl[r ? V1 : V0], R.N * 8);
                               GBuf t(vmp_prepare_contiguous_tmp_bytes(R.mod, 2, 2), 8); vmp_prepare_contiguous(R.mod, (VMP_PMAT*)R.b[MM].p, mat.data(), 2, 2, t.p); }});
-  auto vmp_model = [=](const MState& m, const Budget& b, const std::vector<Poly>& a, std::vector<Poly>& r) {
-    r.assign(2, pzero(m.N));
-    for (int j = 0; j < 2; ++j) { std::vector<const Poly*> av, mv; for (int i = 0; i < 2; ++i) { av.push_back(&a[i]); mv.push_back(&m.s[MM].v[i * 2 + j]); } if (!b.prod_ok(av, mv)) return false; for (int i = 0; i < 2; ++i) r[j] = poly_add(r[j], negacyclic_mul(a[i], m.s[MM].v[i * 2 + j])); }
+  // column j = sum_{i<2} a_i * Mat[i][j]; `cols` columns are computed, the result has 3 limbs (zero-extended)
+  auto vmp_model = [=](const MState& m, const Budget& b, int mslot, int ncols, int cols, const std::vector<Poly>& a, std::vector<Poly>& r) {
+    r.assign(3, pzero(m.N));
+    for (int j = 0; j < cols; ++j) { std::vector<const Poly*> av, mv; for (int i = 0; i < 2; ++i) { av.push_back(&a[i]); mv.push_back(&m.s[mslot].v[i * ncols + j]); } if (!b.prod_ok(av, mv)) return false; for (int i = 0; i < 2; ++i) r[j] = poly_add(r[j], negacyclic_mul(a[i], m.s[mslot].v[i * ncols + j])); }
     return b.dft_ok(r);
   };
-  ops.push_back({"D0 = vmp_apply_dft(V2, M)", true, [=](const MState& m, const Budget& b, MState& n) { if (!defd(m, {V2, MM})) return false; std::vector<Poly> r; if (!vmp_model(m, b, m.s[V2].v, r)) return false; n = m; setv(n, D0, r, "vmp_apply"); return true; },
-                 [](Real& R) { GBuf t(vmp_apply_dft_tmp_bytes(R.mod, 2, 2, 2, 2), 8); vmp_apply_dft(R.mod, (VEC_ZNX_DFT*)R.b[D0].p, 2, R.v(V2), 2, R.sl[2], (VMP_PMAT*)R.b[MM].p, 2, 2, t.p); }});
-  ops.push_back({"D1 = vmp_apply_dft_to_dft(D0, M)", true, [=](const MState& m, const Budget& b, MState& n) { if (!defd(m, {D0, MM})) return false; std::vector<Poly> r; if (!vmp_model(m, b, m.s[D0].v, r)) return false; n = m; setv(n, D1, r, "vmp_apply_to_dft(" + m.s[D0].expr + ")"); return true; },
-                 [](Real& R) { GBuf t(vmp_apply_dft_to_dft_tmp_bytes(R.mod, 2, 2, 2, 2), 8); vmp_apply_dft_to_dft(R.mod, (VEC_ZNX_DFT*)R.b[D1].p, 2, (VEC_ZNX_DFT*)R.b[D0].p, 2, (VMP_PMAT*)R.b[MM].p, 2, 2, t.p); }});
+  ops.push_back({"D0 = vmp_apply_dft(V2, M)", true, [=](const MState& m, const Budget& b, MState& n) { if (!defd(m, {V2, MM})) return false; std::vector<Poly> r; if (!vmp_model(m, b, MM, 2, 2, m.s[V2].v, r)) return false; n = m; setv(n, D0, r, "vmp_apply"); return true; },
+                 [](Real& R) { GBuf t(vmp_apply_dft_tmp_bytes(R.mod, 3, 2, 2, 2), 8); vmp_apply_dft(R.mod, (VEC_ZNX_DFT*)R.b[D0].p, 3, R.v(V2), 2, R.sl[2], (VMP_PMAT*)R.b[MM].p, 2, 2, t.p); }});
+  ops.push_back({"D1 = vmp_apply_dft_to_dft(D0, M)", true, [=](const MState& m, const Budget& b, MState& n) { if (!defd(m, {D0, MM})) return false; std::vector<Poly> r; if (!vmp_model(m, b, MM, 2, 2, m.s[D0].v, r)) return false; n = m; setv(n, D1, r, "vmp_apply_to_dft(" + m.s[D0].expr + ")"); return true; },
+                 [](Real& R) { GBuf t(vmp_apply_dft_to_dft_tmp_bytes(R.mod, 3, 3, 2, 2), 8); vmp_apply_dft_to_dft(R.mod, (VEC_ZNX_DFT*)R.b[D1].p, 3, (VEC_ZNX_DFT*)R.b[D0].p, 3, (VMP_PMAT*)R.b[MM].p, 2, 2, t.p); }});
+  // a 2x4 matrix of which 3 columns are requested: odd last column inside a column pair of the prepared matrix
+  ops.push_back({"M4 = vmp_prepare_contiguous([V0 V1; V1' V0'] 2x4)", true, [=](const MState& m, const Budget& b, MState& n) { if (!defd(m, {V0, V1}) || !b.dft_ok(m.s[V0].v) || !b.dft_ok(m.s[V1].v)) return false; n = m;
+                   setv(n, M4, {m.s[V0].v[0], m.s[V0].v[1], m.s[V1].v[0], m.s[V1].v[1], m.s[V1].v[1], m.s[V1].v[0], m.s[V0].v[1], m.s[V0].v[0]}, "vmp_prepare4"); return true; },
+                 [](Real& R) { std::vector<int64_t> mat(8 * R.N); const int64_t* src[8] = {R.v(V0), R.v(V0) + R.sl[0], R.v(V1), R.v(V1) + R.sl[1], R.v(V1) + R.sl[1], R.v(V1), R.v(V0) + R.sl[0], R.v(V0)};
+                              for (int e = 0; e < 8; ++e) memcpy(&mat[e * R.N], src[e], R.N * 8);
+                              GBuf t(vmp_prepare_contiguous_tmp_bytes(R.mod, 2, 4), 8); vmp_prepare_contiguous(R.mod, (VMP_PMAT*)R.b[M4].p, mat.data(), 2, 4, t.p); }});
+  ops.push_back({"D0 = vmp_apply_dft(V2, M4) 3 of 4 columns", true, [=](const MState& m, const Budget& b, MState& n) { if (!defd(m, {V2, M4})) return false; std::vector<Poly> r; if (!vmp_model(m, b, M4, 4, 3, m.s[V2].v, r)) return false; n = m; setv(n, D0, r, "vmp_apply4"); return true; },
+                 [](Real& R) { GBuf t(vmp_apply_dft_tmp_bytes(R.mod, 3, 2, 2, 4), 8); vmp_apply_dft(R.mod, (VEC_ZNX_DFT*)R.b[D0].p, 3, R.v(V2), 2, R.sl[2], (VMP_PMAT*)R.b[M4].p, 2, 4, t.p); }});
+  ops.push_back({"D1 = vmp_apply_dft_to_dft(D0, M4) 3 of 4 columns", true, [=](const MState& m, const Budget& b, MState& n) { if (!defd(m, {D0, M4})) return false; std::vector<Poly> r; if (!vmp_model(m, b, M4, 4, 3, m.s[D0].v, r)) return false; n = m; setv(n, D1, r, "vmp_apply4_to_dft(" + m.s[D0].expr + ")"); return true; },
+                 [](Real& R) { GBuf t(vmp_apply_dft_to_dft_tmp_bytes(R.mod, 3, 3, 2, 4), 8); vmp_apply_dft_to_dft(R.mod, (VEC_ZNX_DFT*)R.b[D1].p, 3, (VEC_ZNX_DFT*)R.b[D0].p, 3, (VMP_PMAT*)R.b[M4].p, 2, 4, t.p); }});
   // ---- back to coefficient space
   ops.push_back({"B0 = vec_znx_idft(D0)", false, [=](const MState& m, const Budget& b, MState& n) { if (!defd(m, {D0}) || !b.big_ok(m.s[D0].v)) return false; n = m; setv(n, B0, m.s[D0].v); return true; },
-                 [](Real& R) { GBuf t(vec_znx_idft_tmp_bytes(R.mod), 8); vec_znx_idft(R.mod, (VEC_ZNX_BIG*)R.b[B0].p, 2, (VEC_ZNX_DFT*)R.b[D0].p, 2, t.p); }});
+                 [](Real& R) { GBuf t(vec_znx_idft_tmp_bytes(R.mod), 8); vec_znx_idft(R.mod, (VEC_ZNX_BIG*)R.b[B0].p, 3, (VEC_ZNX_DFT*)R.b[D0].p, 3, t.p); }});
   ops.push_back({"B1 = vec_znx_idft_tmp_a(D1)  (D1 becomes undefined)", false, [=](const MState& m, const Budget& b, MState& n) { if (!defd(m, {D1}) || !b.big_ok(m.s[D1].v)) return false; n = m; setv(n, B1, m.s[D1].v); n.s[D1] = MSlot(); return true; },
-                 [](Real& R) { vec_znx_idft_tmp_a(R.mod, (VEC_ZNX_BIG*)R.b[B1].p, 2, (VEC_ZNX_DFT*)R.b[D1].p, 2); }});
+                 [](Real& R) { vec_znx_idft_tmp_a(R.mod, (VEC_ZNX_BIG*)R.b[B1].p, 3, (VEC_ZNX_DFT*)R.b[D1].p, 3); }});
   // ---- big-coefficient arithmetic (FFT64 only)
   auto bigop = [&](const std::string& nm, int dst, std::initializer_list<int> in, std::function<std::vector<Poly>(const MState&)> f, std::function<void(Real&)> real) {
     std::vector<int> ins(in);
     ops.push_back({nm, true, [=](const MState& m, const Budget& b, MState& n) { for (int i : ins) if (!m.s[i].def) return false; auto r = f(m); if (!b.big_ok(r)) return false; n = m; n.s[dst].def = true; n.s[dst].v = r; n.s[dst].expr = ""; return true; }, real});
   };
   #define BIG(i) ((VEC_ZNX_BIG*)R.b[i].p)
-  bigop("B0 = vec_znx_big_add(B0, B1) in place", B0, {B0, B1}, [](const MState& m) { return vadd(m.s[B0].v, m.s[B1].v, 1); }, [](Real& R) { vec_znx_big_add(R.mod, BIG(B0), 2, BIG(B0), 2, BIG(B1), 2); });
-  bigop("B1 = vec_znx_big_sub(B0, B1) in place", B1, {B0, B1}, [](const MState& m) { return vadd(m.s[B0].v, m.s[B1].v, -1); }, [](Real& R) { vec_znx_big_sub(R.mod, BIG(B1), 2, BIG(B0), 2, BIG(B1), 2); });
-  bigop("B0 = vec_znx_big_add_small(B0, V1)", B0, {B0, V1}, [](const MState& m) { return vadd(m.s[B0].v, m.s[V1].v, 1); }, [](Real& R) { vec_znx_big_add_small(R.mod, BIG(B0), 2, BIG(B0), 2, R.v(V1), 2, R.sl[1]); });
-  bigop("B1 = vec_znx_big_sub_small_a(V0, B1)", B1, {V0, B1}, [](const MState& m) { return vadd(m.s[V0].v, m.s[B1].v, -1); }, [](Real& R) { vec_znx_big_sub_small_a(R.mod, BIG(B1), 2, R.v(V0), 2, R.sl[0], BIG(B1), 2); });
-  bigop("B0 = vec_znx_big_sub_small_b(B0, V2)", B0, {B0, V2}, [](const MState& m) { return vadd(m.s[B0].v, m.s[V2].v, -1); }, [](Real& R) { vec_znx_big_sub_small_b(R.mod, BIG(B0), 2, BIG(B0), 2, R.v(V2), 2, R.sl[2]); });
-  bigop("B1 = vec_znx_big_add_small2(V0, V1)", B1, {V0, V1}, [](const MState& m) { return vadd(m.s[V0].v, m.s[V1].v, 1); }, [](Real& R) { vec_znx_big_add_small2(R.mod, BIG(B1), 2, R.v(V0), 2, R.sl[0], R.v(V1), 2, R.sl[1]); });
-  bigop("B0 = vec_znx_big_sub_small2(V1, V2)", B0, {V1, V2}, [](const MState& m) { return vadd(m.s[V1].v, m.s[V2].v, -1); }, [](Real& R) { vec_znx_big_sub_small2(R.mod, BIG(B0), 2, R.v(V1), 2, R.sl[1], R.v(V2), 2, R.sl[2]); });
-  bigop("B0 = vec_znx_big_rotate(B0, 3) in place", B0, {B0}, [](const MState& m) { return vmap(m.s[B0].v, [](const Poly& p) { return poly_rotate(p, 3); }); }, [](Real& R) { vec_znx_big_rotate(R.mod, 3, BIG(B0), 2, BIG(B0), 2); });
-  bigop("B1 = vec_znx_big_automorphism(B0, 5)", B1, {B0}, [](const MState& m) { return vmap(m.s[B0].v, [](const Poly& p) { return poly_automorphism(p, 5); }); }, [](Real& R) { vec_znx_big_automorphism(R.mod, 5, BIG(B1), 2, BIG(B0), 2); });
-  ops.push_back({"V2 = vec_znx_big_normalize_base2k(8, B0)", true, [=](const MState& m, const Budget&, MState& n) { if (!defd(m, {B0})) return false; n = m; setv(n, V2, vnorm(m.s[B0].v, K)); return true; },
-                 [=](Real& R) { vec_znx_big_normalize_base2k(R.mod, K, R.v(V2), 2, R.sl[2], BIG(B0), 2, R.tmp.p); }});
-  ops.push_back({"V1 = vec_znx_big_range_normalize_base2k(8, B1[0:2:1])", true, [=](const MState& m, const Budget&, MState& n) { if (!defd(m, {B1})) return false; n = m; setv(n, V1, vnorm(m.s[B1].v, K)); return true; },
+  bigop("B0 = vec_znx_big_add(B0, B1) in place", B0, {B0, B1}, [](const MState& m) { return vadd(m.s[B0].v, m.s[B1].v, 1); }, [](Real& R) { vec_znx_big_add(R.mod, BIG(B0), 3, BIG(B0), 3, BIG(B1), 3); });
+  bigop("B1 = vec_znx_big_sub(B0, B1) in place", B1, {B0, B1}, [](const MState& m) { return vadd(m.s[B0].v, m.s[B1].v, -1); }, [](Real& R) { vec_znx_big_sub(R.mod, BIG(B1), 3, BIG(B0), 3, BIG(B1), 3); });
+  bigop("B0 = vec_znx_big_add_small(B0, V1)", B0, {B0, V1}, [](const MState& m) { return vadd3(m.s[B0].v, m.s[V1].v, 1); }, [](Real& R) { vec_znx_big_add_small(R.mod, BIG(B0), 3, BIG(B0), 3, R.v(V1), 2, R.sl[1]); });
+  bigop("B1 = vec_znx_big_sub_small_a(V0, B1)", B1, {V0, B1}, [](const MState& m) { return vadd3(m.s[V0].v, m.s[B1].v, -1); }, [](Real& R) { vec_znx_big_sub_small_a(R.mod, BIG(B1), 3, R.v(V0), 2, R.sl[0], BIG(B1), 3); });
+  bigop("B0 = vec_znx_big_sub_small_b(B0, V2)", B0, {B0, V2}, [](const MState& m) { return vadd3(m.s[B0].v, m.s[V2].v, -1); }, [](Real& R) { vec_znx_big_sub_small_b(R.mod, BIG(B0), 3, BIG(B0), 3, R.v(V2), 2, R.sl[2]); });
+  bigop("B1 = vec_znx_big_add_small2(V0, V1)", B1, {V0, V1}, [](const MState& m) { return vadd3(m.s[V0].v, m.s[V1].v, 1); }, [](Real& R) { vec_znx_big_add_small2(R.mod, BIG(B1), 3, R.v(V0), 2, R.sl[0], R.v(V1), 2, R.sl[1]); });
+  bigop("B0 = vec_znx_big_sub_small2(V1, V2)", B0, {V1, V2}, [](const MState& m) { return vadd3(m.s[V1].v, m.s[V2].v, -1); }, [](Real& R) { vec_znx_big_sub_small2(R.mod, BIG(B0), 3, R.v(V1), 2, R.sl[1], R.v(V2), 2, R.sl[2]); });
+  bigop("B0 = vec_znx_big_rotate(B0, 3) in place", B0, {B0}, [](const MState& m) { return vmap(m.s[B0].v, [](const Poly& p) { return poly_rotate(p, 3); }); }, [](Real& R) { vec_znx_big_rotate(R.mod, 3, BIG(B0), 3, BIG(B0), 3); });
+  bigop("B1 = vec_znx_big_automorphism(B0, 5)", B1, {B0}, [](const MState& m) { return vmap(m.s[B0].v, [](const Poly& p) { return poly_automorphism(p, 5); }); }, [](Real& R) { vec_znx_big_automorphism(R.mod, 5, BIG(B1), 3, BIG(B0), 3); });
+  ops.push_back({"V2 = vec_znx_big_normalize_base2k(8, B0)", true, [=](const MState& m, const Budget&, MState& n) { if (!defd(m, {B0})) return false; n = m; auto d = vnorm(m.s[B0].v, K); setv(n, V2, {d[0], d[1]}); return true; },
+                 [=](Real& R) { vec_znx_big_normalize_base2k(R.mod, K, R.v(V2), 2, R.sl[2], BIG(B0), 3, R.tmp.p); }});
+  ops.push_back({"V1 = vec_znx_big_range_normalize_base2k(8, B1[0:2:1])", true, [=](const MState& m, const Budget&, MState& n) { if (!defd(m, {B1})) return false; n = m; setv(n, V1, vnorm({m.s[B1].v[0], m.s[B1].v[1]}, K)); return true; },
                  [=](Real& R) { vec_znx_big_range_normalize_base2k(R.mod, K, R.v(V1), 2, R.sl[1], BIG(B1), 0, 2, 1, R.tmp.p); }});
+  ops.push_back({"V1 = vec_znx_big_range_normalize_base2k(8, B1[0:3:2])", true, [=](const MState& m, const Budget&, MState& n) { if (!defd(m, {B1})) return false; n = m; setv(n, V1, vnorm({m.s[B1].v[0], m.s[B1].v[2]}, K)); return true; },
+                 [=](Real& R) { vec_znx_big_range_normalize_base2k(R.mod, K, R.v(V1), 2, R.sl[1], BIG(B1), 0, 3, 2, R.tmp.p); }});
   ops.push_back({"V0 limb0 = vec_znx_big_range_normalize_base2k(8, B0[1:2:1])", true, [=](const MState& m, const Budget&, MState& n) { if (!defd(m, {B0, V0})) return false; n = m; auto d = vnorm({m.s[B0].v[1]}, K); n.s[V0].v[0] = d[0]; return true; },
                  [=](Real& R) { vec_znx_big_range_normalize_base2k(R.mod, K, R.v(V0), 1, R.sl[0], BIG(B0), 1, 2, 1, R.tmp.p); }});
   ops.push_back({"V2 limb0 = znx_small_single_product(V0 limb0, V1 limb0)", true, [=](const MState& m, const Budget& b, MState& n) { if (!defd(m, {V0, V1, V2}) || !b.prod_ok({&m.s[V0].v[0]}, {&m.s[V1].v[0]})) return false; Poly r = negacyclic_mul(m.s[V0].v[0], m.s[V1].v[0]); if (!int_ok({r})) return false; n = m; n.s[V2].v[0] = r; return true; },
@@ -191,14 +207,14 @@ static std::string replay(const std::vector<Op>& ops, MODULE* mod, MODULE_TYPE t
   if (!R.guards()) return "a call wrote outside a declared extent";
   for (int s = V0; s <= V2; ++s) if (m.s[s].def) for (int l = 0; l < 2; ++l) for (uint64_t j = 0; j < N; ++j)
     if ((i128)R.v(s)[l * R.sl[s] + j] != m.s[s].v[l][j]) return sfmt("slot %s limb %d coefficient %llu is %lld, the exact value of the expression is %s", SN[s], l, (unsigned long long)j, (long long)R.v(s)[l * R.sl[s] + j], i128_str(m.s[s].v[l][j]).c_str());
-  for (int s = B0; s <= B1; ++s) if (m.s[s].def) for (int l = 0; l < 2; ++l) for (uint64_t j = 0; j < N; ++j)
+  for (int s = B0; s <= B1; ++s) if (m.s[s].def) for (int l = 0; l < 3; ++l) for (uint64_t j = 0; j < N; ++j)
     if (R.big_at(s, l, j) != m.s[s].v[l][j]) return sfmt("slot %s limb %d coefficient %llu is %s, the exact value of the expression is %s", SN[s], l, (unsigned long long)j, i128_str(R.big_at(s, l, j)).c_str(), i128_str(m.s[s].v[l][j]).c_str());
   // read out the DFT slots on copies
   for (int s = D0; s <= D1; ++s) if (m.s[s].def && bud.big_ok(m.s[s].v)) {
-    GBuf cp(R.b[s].bytes, 16), big(big_bytes(t, N, 2), 8);
+    GBuf cp(R.b[s].bytes, 16), big(big_bytes(t, N, 3), 8);
     memcpy(cp.p, R.b[s].p, cp.bytes);
-    vec_znx_idft_tmp_a(mod, (VEC_ZNX_BIG*)big.p, 2, (VEC_ZNX_DFT*)cp.p, 2);
-    for (int l = 0; l < 2; ++l) for (uint64_t j = 0; j < N; ++j) {
+    vec_znx_idft_tmp_a(mod, (VEC_ZNX_BIG*)big.p, 3, (VEC_ZNX_DFT*)cp.p, 3);
+    for (int l = 0; l < 3; ++l) for (uint64_t j = 0; j < N; ++j) {
       i128 g; if (t == FFT64) g = big.as<int64_t>()[l * N + j]; else memcpy(&g, big.p + 16 * (l * N + j), 16);
       if (g != m.s[s].v[l][j]) return sfmt("DFT slot %s (produced by %s) read out through idft: limb %d coefficient %llu is %s, the exact value is %s", SN[s], m.s[s].expr.c_str(), l, (unsigned long long)j, i128_str(g).c_str(), i128_str(m.s[s].v[l][j]).c_str());
     }
